@@ -17,7 +17,7 @@ func init() {
 // added to it are picked up without touching the harness.
 func VerifOpNames(args []string) {
 	var names []string
-	for k := range builtinOperators {
+	for _, k := range vfBuiltinNames() {
 		names = append(names, k)
 	}
 	sort.Strings(names)
@@ -48,7 +48,7 @@ func vfTyped(tag byte, name string) Value {
 // the real table entry on symbolic operands against the reference algebra.
 func VerifC18(args []string) {
 	name, tags := args[0], args[1]
-	op, ok := builtinOperators[name]
+	op, ok := vfBuiltin(name)
 	vfAssert(ok && op != nil, "operator present in table")
 	n := len(tags)
 	params := make([]Value, n)
@@ -70,7 +70,7 @@ func VerifC18(args []string) {
 	// every alias behaves like its named form
 	canon := refCanon(name)
 	if canon != name {
-		cop, cok := builtinOperators[canon]
+		cop, cok := vfBuiltin(canon)
 		vfAssert(cok && cop != nil, "canonical operator present")
 		p2 := make([]Value, n)
 		copy(p2, saved)
@@ -94,7 +94,7 @@ func VerifC18(args []string) {
 	if dual != "" && n == 2 {
 		p3 := make([]Value, n)
 		copy(p3, saved)
-		g3, e3 := builtinOperators[dual](nil, p3)
+		g3, e3 := vfBuiltinCall(dual, p3)
 		vfAssert((err == nil) == (e3 == nil), "dual operators fail together")
 		if err == nil {
 			vfReach("dual")
